@@ -1096,7 +1096,11 @@ class Facts:
                             okp = impl_key(n) == gk and gk[0] != ''
                         else:
                             gs, ns = ref['sig'].get(g), sigs.get(n)
-                            okp = impl_key(n) is None and module_of(g) == module_of(n) and module_of(g) != '' and gs is not None and ns is not None \
+                            nk = impl_key(n)
+                            # (an inherent method may also come back as the method of the same name of a std trait impl:
+                            #  `fn into_iter(self)` -> `impl IntoIterator`)
+                            okp = (nk is None or (nk[2] == g.rsplit('::', 1)[-1] and nk[0] == module_of(g))) and (nk is not None or module_of(g) == module_of(n)) \
+                                and module_of(g) != '' and gs is not None and ns is not None \
                                 and len(gs[0]) == len(ns['inputs']) and bool(ref['callers'].get(g)) \
                                 and set(ref['callers'].get(g)) == {ren.get(c, c) for c in cur_callers.get(n, set())}
                         if okp:
